@@ -110,7 +110,6 @@ Proof.
       { unfold qualifying. assert (F : forall l, qualifies g l = false) by (intros l; unfold qualifies; apply Z.eqb_neq in Pz; rewrite Pz; reflexivity).
         clear -F. induction tbl as [|l r IH]; cbn [filter]; auto. rewrite F. auto. }
       rewrite Q0. cbn [fold_right].
-      destruct (nolock_coins (remain_epochs g) remain []); auto.
       assert (pool_addr (g_pool g) =? a = false) by (apply Z.eqb_neq; unfold pool_addr; lia). rewrite H. reflexivity. }
   apply Z.eqb_eq in Pz. pose proof (Hd0 Pz) as Hd.
   pose proof (coins_sub_spec _ _ _ Sb) as Rs. pose proof (coins_sub_pos _ _ _ Sb Pc) as Rp.
